@@ -266,6 +266,11 @@ def handle (line : String) : String :=
       let free := delimFree d tm
       s!"{case}\ttok={showRes res}\tspec={hexOf (specRender cfg vmark bmark tm)}\tfree={if free then 1 else 0}\tgood={if goodDelims d then 1 else 0}\tsrcok={if srcok then 1 else 0}"
     | _, _, _ => s!"{case}\tbad-case"
+  | ["rand", tlk, fam, _src] =>
+    match parseCfg tlk, parseFam fam, (field fields "src").bind unhex with
+    | some cfg, some d, some src =>
+      s!"{case}\ttok={showRes (lex cfg d (findStart d) src)}\tvalid={if (validatedStartDelims d).isSome then 1 else 0}"
+    | _, _, _ => s!"{case}\tbad-case"
   | ["prog", tlk, fam, _segs] =>
     match parseCfg tlk, parseFam fam, (field fields "src").bind unhex with
     | some cfg, some d, some src => s!"{case}\ttok={showRes (lex cfg d (findStart d) src)}"
@@ -281,6 +286,12 @@ def handle (line : String) : String :=
         s!"{case}\ttok={showRes res}\tspec={hexOf (specRender cfg vmark bmark tm)}\tfree={if delimFree d tm then 1 else 0}\tgood={if goodDelims d then 1 else 0}\tsrcok={if srcok then 1 else 0}"
       | none => s!"{case}\ttok={showRes res}\tspec=-\tfree=0\tgood=0\tsrcok=0"
     | _, _, _ => s!"{case}\tbad-case"
+  | ["cfg", fam] =>
+    match parseFam fam with
+    | some d =>
+      let ok := (validatedStartDelims d).isSome && !d.ve.isEmpty && !d.be.isEmpty && !d.ce.isEmpty
+      s!"{case}\tvalid={if ok then 1 else 0}"
+    | none => s!"{case}\tbad-case"
   | _ => s!"{case}\t-"
 
 partial def loop (h : IO.FS.Stream) (out : IO.FS.Stream) : IO Unit := do
